@@ -50,6 +50,14 @@ def charset(rng):
     return rng.choice(['bogus', 'x' * 300, '\x00', '', '"', 'utf-8;', ' hex ', 'HEX', 'Zlib'])
 
 
+WALKER_ATTRS = ['codebase', 'archive', 'classid', 'code', 'data', 'type', 'src', 'href', 'rel', 'valuetype', 'value', 'name', 'property',
+                'content', 'http-equiv', 'style', 'srcset', 'onclick', 'action', 'background', 'lowsrc', 'usemap', 'longdesc', 'cite', 'profile']
+WALKER_VALUES = ['type', 'data', 'href', 'src', 'codebase', 'foo', 'html', 'css', 'javascript', 'media', 'sitemap', 'file', 'directory', 'ref', 'REF',
+                 'stylesheet', 'icon', 'shortcut icon', 'og:image', 'og:url', 'twitter:image', 'refresh', '0; url=/r', '/x', 'x.swf', 'a.jar b.jar  c.jar',
+                 'http://a.test/cb/', 'http://[', '', ' ', 'clsid:D27CDB6E', 'java:Applet.class', "location='/oc.html'", 'background:url(/st.png)',
+                 '/s1.png 1x, /s2.png 2x', '\x00', 'text/html', 'application/x-shockwave-flash']
+
+
 def html_doc(rng, links):
     attrs = ['href', 'src', 'data', 'action', 'background', 'style', 'srcset', 'content']
     parts = ['<html><head>']
@@ -74,6 +82,18 @@ def html_doc(rng, links):
                           'ftp://a.test/%2e%2e/', 'http://ä.test/', 'http://xn--/', 'http://a..b/', 'http://[::1]:80:80/', 'data:,x',
                           'http://user:pa:ss@a.test/', 'http://a.test/?q=\udc80', ' /sp ', '/a b', 'http:///x', 'url(', '1x, 2x', '/s1.png 1x, /s2.png 2x'])
         parts.append('<%s %s="%s">' % (tag, attr, val))
+    for _ in range(rng.randint(0, 3)):
+        # elements with SEVERAL attributes, over every attribute name the element walker reads, with values that are
+        # URLs, names of other attributes, link-type names and junk: the handlers that combine attributes
+        # (object/applet codebase+archive+data, param valuetype+value, link rel+href, meta property+content)
+        tag = rng.choice(['object', 'applet', 'embed', 'param', 'link', 'meta', 'a', 'img', 'script', 'form', 'iframe', 'table', 'input'])
+        names = rng.sample(WALKER_ATTRS, rng.randint(1, 4))
+        if tag in ('object', 'applet', 'embed') and rng.random() < 0.6:
+            names = list(dict.fromkeys(['codebase'] + names))
+        # a third of the values name another attribute of the same element (a handler that looks an attribute up by
+        # a VALUE instead of by a name finds something)
+        vals = [rng.choice(names) if rng.random() < 0.33 else rng.choice(WALKER_VALUES) for _ in names]
+        parts.append('<%s %s>' % (tag, ' '.join('%s="%s"' % (a, v) for a, v in zip(names, vals))))
     parts.append('</body></html>')
     doc = ''.join(parts)
     enc = rng.choice(['utf-8', 'utf-8', 'latin-1', 'utf-16', 'surrogatepass'])
@@ -119,13 +139,26 @@ def sitemap_doc(rng):
 
 
 def robots_doc(rng):
-    d = ('User-agent: %s\nDisallow: %s\nAllow: %s\nCrawl-delay: %s\nSitemap: %s\n' % (
-        rng.choice(['*', 'wpull', '', '\xff']), rng.choice(['/', '/p*$', '%', '%zz', '*' * 50, '\x00', '[']),
-        rng.choice(['/', '', '$', '**$$']), rng.choice(['1', 'x', '1e999', '-']), rng.choice(['http://a.test/sitemap.xml', 'http://[', '']))).encode('latin-1', 'replace')
+    if rng.random() < 0.5:
+        d = ('User-agent: %s\nDisallow: %s\nAllow: %s\nCrawl-delay: %s\nSitemap: %s\n' % (
+            rng.choice(['*', 'wpull', '', '\xff']), rng.choice(['/', '/p*$', '%', '%zz', '*' * 50, '\x00', '[']),
+            rng.choice(['/', '', '$', '**$$']), rng.choice(['1', 'x', '1e999', '-']), rng.choice(['http://a.test/sitemap.xml', 'http://[', '']))).encode('latin-1', 'replace')
+    else:
+        # records as the grammar allows them: any number of agent lines followed by ANY subset of the other lines
+        # (a record with no rule at all, only a delay, only a sitemap; agent lines with nothing behind them)
+        recs = []
+        for _ in range(rng.randint(1, 4)):
+            lines = ['User-agent: %s' % rng.choice(['*', 'wpull', 'Wpull', 'otherbot', '', '\xff']) for _ in range(rng.randint(0, 2))]
+            pool = ['Disallow: %s' % rng.choice(['/', '', '/p', '/p*$', '*']), 'Allow: %s' % rng.choice(['/', '', '/page', '$']),
+                    'Crawl-delay: %s' % rng.choice(['10', '1', '0.5', 'x', '1e999', '-1', '']), 'Sitemap: %s' % rng.choice(['http://a.test/s.xml', 'http://[', '']),
+                    'Host: a.test', 'Request-rate: 1/5', 'Visit-time: 0600-0845', '# comment', 'Noindex: /x']
+            lines += rng.sample(pool, rng.randint(0, 3))
+            recs.append('\n'.join(lines))
+        d = (rng.choice(['', '\ufeff', '\xef\xbb\xbf']) + rng.choice(['\n\n', '\n', '\r\n\r\n', '\r']).join(recs) + rng.choice(['', '\n'])).encode('latin-1', 'replace')
     r = rng.random()
-    if r < 0.4:
+    if r < 0.3:
         d = mutate(rng, d)
-    elif r < 0.5:
+    elif r < 0.4:
         d = rbytes(rng, rng.randint(0, 200))
     return d
 
@@ -189,7 +222,11 @@ def http_response(rng, body=None, ctype=None, location=None):
                                 ('Connection', rng.choice(['close', 'keep-alive', 'x'])), ('X-Fold', 'a\r\n b'), ('Link', '</l>; rel=x'),
                                 ('Last-Modified', rng.choice(['garbage', 'Mon, 01 Jan 2001 00:00:00 GMT', '99999999999'])),
                                 ('Content-Disposition', rng.choice(['attachment; filename="../../x"', 'attachment; filename=', 'x'])),
-                                ('WWW-Authenticate', 'Basic realm="x"'), ('', 'empty-name'), ('No-Colon-Here', None)]))
+                                ('WWW-Authenticate', 'Basic realm="x"'), ('', 'empty-name'), ('No-Colon-Here', None),
+                                # names outside ASCII: the record normalises names with str.title(), which maps some
+                                # latin-1 letters outside latin-1 (0xB5 -> U+039C, 0xFF -> U+0178) and some to two letters
+                                ('X-\xb5s-Elapsed', '12'), ('\xff-Name', 'v'), ('X-stra\xdfe', 'v'), ('\xb5', ''), ('x-\xaa\xba', 'v'),
+                                ('X-Caf\xe9', '\xe9\xff\xb5'), ('\xdf', '\xdf')]))
     version = rng.choice(['HTTP/1.1'] * 6 + ['HTTP/1.0', 'HTTP/2', 'HTTP', 'ICY', '', 'HTTP/1.1 '])
     line = '%s %s %s' % (version, status, reason) if rng.random() < 0.9 else rng.choice(['', 'garbage', 'HTTP/1.1', 'HTTP/1.1 abc OK', 'HTTP/1.1 -1 OK', '\x00\x01'])
     head = line + nl
